@@ -22,8 +22,8 @@ CHECKS.update({
             "Trusts vf/ref/grammar_model.py; computed repetition counts are read as {0,}; Gmutator settings never set; exrex/regex are part of the observed system.",
             "DESIGN.md §2 C01"),
     "C04": ("exploration",
-            "runtime oracle on every tree yielded by parse / parse_forest / Fandango.parse: reference derivation checker, reference serialisation == input, reference recogniser; inputs include near misses",
-            "Soundness is judged per yielded tree (no reference forest needed, ambiguity cannot alarm). Inputs: reference-language words, fuzzed words, near misses, noise, other start symbols; API level with word-level constraints whose truth the harness computes from the input.",
+            "runtime oracle on every tree yielded by parse / parse_forest / Fandango.parse: reference derivation checker, reference serialisation == input, reference recogniser; inputs include near misses; request histories on one object",
+            "Soundness is judged per yielded tree (no reference forest needed, ambiguity cannot alarm). Inputs: reference-language words, fuzzed words, near misses (deletions, insertions, case variants, neighbouring code points), noise, other start symbols; per input the order of first-tree / forest / prefix-mode-then-complete requests on the shared object varies; API level with one to three word-level constraints whose truth the harness computes from the input.",
             "Trusts the reference model; abstains on the Latin-1/UTF-8 reading of text terminals inside binary grammars (C05/C09 decide that).",
             "DESIGN.md §2 C04"),
     "C05": ("exploration",
@@ -32,8 +32,8 @@ CHECKS.update({
             "Grammar class of the statement enforced by construction (regex terminals delimited); harvested grammars with regexes are reported separately; the listed known findings are broad mechanism classes (see known_findings.json).",
             "DESIGN.md §2 C05"),
     "C06": ("exploration",
-            "logical step clock on Column.add (admitted Earley states, reset at every output) with a budget and divergence witnesses (growing-children core / duplicate state); exhaustive short inputs over the grammar alphabet",
-            "Liveness restated as bounded progress: a request is violating when > 8000 states are admitted without an output AND a pumping/duplicate witness exists; budget without witness is inconclusive. Grammar generator emphasises nullable symbols under repetitions, recursion, unit cycles.",
+            "logical step clock on Column.add (admitted Earley states, reset at every output) with a budget and divergence witnesses (growing-children core / duplicate state); second logical clock (sys.monitoring back-edges of the parser package taken without an admission, return or yield); exhaustive short inputs over the grammar alphabet",
+            "Liveness restated as bounded progress: a request is violating when > 8000 states are admitted without an output AND a pumping/duplicate witness exists; or one loop back-edge is taken more than 100000 + 20 x (states admitted + input length) times inside one activation while nothing is admitted; budget without witness is inconclusive. Grammar generator emphasises nullable symbols under repetitions, recursion, unit cycles, computed repetitions under every list shape.",
             "A finite run cannot decide unbounded termination; finitely ambiguous grammars of the generated size need far fewer admissions (reported).",
             "DESIGN.md §2 C06"),
     "C13": ("exploration",
@@ -45,13 +45,13 @@ CHECKS.update({
 
 CHECKS.update({
     "C09": ("exploration",
-            "reference-model monitor: random leaf sequences x random bracketings x all 24 orders of str/bytes/to_bits/int, on fresh copies, on one tree and on one value object; before/after snapshots of trees and terminal value objects",
+            "reference-model monitor: random leaf sequences x random bracketings x all 24 orders of str/bytes/to_bits/int, on fresh copies, on one tree and on one value object; value -> in-place edit -> value histories on the tree, subtrees, index and slice views; before/after snapshots of trees and terminal value objects",
             "Associativity (bracketing independence), agreement of the three views with an independent reference serialisation (vf/ref/treeval.py), order independence and absence of side effects are observed on every generated (leaf sequence, bracketing).",
             "int() only for order/bracketing independence; unaligned sequences only for 'same outcome for every bracketing, no mutation'.",
             "DESIGN.md §2 C09"),
     "C10": ("exploration",
             "model-based history checking: random histories of public tree operations and evolutionary operators on real grammars; invariant walker (size/hash/==/parent vs from-scratch rebuild) after every step over all live trees; before/after dumps and in-place perturbation of outputs for aliasing; retained solutions re-dumped during real search runs",
-            "Every step of every history is followed by a full walk of all trees the caller still holds. Operation and operator counts are in the evidence.",
+            "Every step of every history (including edits that are taken back, and trees with generator source trees) is followed by a full walk of all trees the caller still holds. Operation and operator counts are in the evidence.",
             "ParserDerivationTree internals are not walked; hash collisions only where they occur.",
             "DESIGN.md §2 C10"),
     "C12": ("exploration",
@@ -73,8 +73,8 @@ CHECKS.update({
             "The Python expression itself is evaluated by CPython on the real nodes; shapes the docs are silent on (index out of range, quantifying over slices, `*<a>[i]`, implication) are abstentions.",
             "DESIGN.md §2 C07"),
     "C11": ("exploration",
-            "shadow evaluation inside a wrapper of Evaluator.evaluate_individual: sampled evaluations (incl. cache hits) are repeated by a brand-new evaluator on cache-cleared constraint objects on a structural copy; RNG state saved/restored; plus targeted edit/re-evaluate histories",
-            "Compared: fitness (exact float), verdict, failing parts as multiset of (path, symbol, cause).",
+            "shadow evaluation inside a wrapper of Evaluator.evaluate_individual: sampled evaluations (incl. cache hits) are repeated by a brand-new evaluator on cache-cleared constraint objects on a structural copy, and by a third evaluator whose constraint memos never store (logical budget); RNG state saved/restored; plus targeted edit/re-evaluate histories and constraint objects asked directly twice",
+            "Compared with the brand-new evaluation: fitness (exact float), verdict, failing parts as multiset of (path, symbol, cause); with the unmemoised one: fitness and verdict.",
             "Suggestions are not compared; soft-constraint specs excluded.",
             "DESIGN.md §2 C11"),
 })
@@ -90,7 +90,7 @@ CHECKS.update({
 CHECKS.update({
     "C15": ("exploration",
             "differential runtime check on the real printer/reader pair: S -> str(parse_content(S)) -> re-read S'; rule structure in normal form, bounded reference languages, constraint verdicts on parse trees of sampled words, generator calls and arguments",
-            "Generated specs (postfix operators on groups, nested groups, open and computed bounds, quoting/escaping of text, bytes and regex literals, bits, every constraint form) and all harvested specs.",
+            "Generated specs (postfix operators on groups, nested groups, open and computed bounds, quoting/escaping of text, bytes and regex literals, bits, every constraint form incl. generated index/slice/path selector forms and random formulas) and all harvested specs.",
             "Language equality beyond structural equality is decided on bounded word sets.",
             "DESIGN.md §2 C15"),
 })
@@ -111,25 +111,25 @@ CHECKS.update({
             "DESIGN.md §2 C16"),
     "C17": ("exploration",
             "paired executions in fresh interpreters: identical configuration, second process perturbed (heap layout / ids, clocks, cwd, import order, environment); event logs (solutions in order, parse-result dumps, CLI output files) compared byte for byte",
-            "Python API and real CLI; harvested deterministic specs, generated specs with constraints, generators, computed repetitions; settings grid.",
+            "Python API and real CLI; harvested deterministic specs, generated specs with constraints (incl. hard disjunctions over different symbols run for 15-30 generations), generators, computed repetitions; settings grid.",
             "Specs whose own Python is nondeterministic are excluded by a static scan; PYTHONHASHSEED is part of the configuration.",
             "DESIGN.md §2 C17"),
     "C18": ("exploration",
             "paired executions: B alone in a fresh process vs. B after activity on other spec objects A in the same process; event logs compared; global-limit trace recorded; counterfactual attribution by resetting the suspected global before B",
-            "A: hard-to-solve specs that drive the adaptive tuner, computed repetitions, generators, parsing; B: open-ended and bounded repetitions, constrained specs, parse-only usage; chains of up to three A instances.",
+            "A: hard-to-solve specs that drive the adaptive tuner, computed repetitions, generators, parsing; B: open-ended and bounded repetitions, constrained specs, parse-only usage; chains of up to three A instances, which also parse B's own inputs; protocol-mode pairs whose specs define party classes with equal or different names.",
             "B passes random_seed itself.",
             "DESIGN.md §2 C18"),
     "C19": ("exploration",
-            "exhaustive (depth-bounded, fan-out sampled) walk of reachable message histories through the real PacketForecaster with every mounting path; options and completeness compared with a Brzozowski-derivative automaton of the grammar's node objects after init_io / slice_parties; single-branch chains past repetition bounds with a lowered cap; counterfactual / lenient-automaton attribution",
-            "Generated protocol grammars (alternatives, options, all repetition forms, nesting, reused messages, 2-4 parties, external parties, slices) + tests/resources/forecaster.fan.",
+            "exhaustive (depth-bounded, fan-out sampled) walk of reachable message histories through the real PacketForecaster with every mounting path; options and completeness compared with a Brzozowski-derivative automaton of the grammar's node objects after init_io / slice_parties; histories produced by prefix-mode parsing of message texts (party annotations from the parse); single-branch chains past repetition bounds with a lowered cap; counterfactual / lenient-automaton attribution",
+            "Generated protocol grammars (alternatives, options, all repetition forms, nesting, reused messages, message types shared between recipients/senders, 2-4 parties, external parties, slices) + tests/resources/forecaster.fan.",
             "Recursive protocol grammars and nullable bodies under repetitions are not generated.",
             "DESIGN.md §2 C19"),
 })
 
 CHECKS.update({
     "C20": ("fault_enumeration",
-            "offline checkers over a recorded event log (one lock, one sequence number around the real FandangoIO.transmit / add_receive / clear_by_party / reset_parties) plus the yielded interaction tree: prefix validity (message automaton + derivation checker), attribution, per-channel conservation (delivered = consumed in order + buffered), exactly-once transmission, constraints on sent messages, no misbehaving remote message accepted",
-            "In-process protocol runs against a scripted peer (threads): valid / wrong type / constraint-violating / truncated / silent / unsolicited replies, random fragmentations with injected delays, one or two concurrently answering external parties, text and binary messages.",
+            "offline checkers over a recorded event log (one lock, one sequence number around the real FandangoIO.transmit / add_receive / clear_by_party / reset_parties) plus the yielded interaction tree: prefix validity (message automaton + derivation checker), attribution, per-channel conservation (delivered = consumed in order + buffered), every consumption is exactly one message of that sender, exactly-once transmission, constraints on sent messages, no misbehaving remote message accepted",
+            "In-process protocol runs against a scripted peer (threads): valid / wrong type / constraint-violating / truncated / silent / unsolicited replies, random fragmentations with injected delays, one or two concurrently answering external parties, back-to-back messages in one chunk, text and binary messages.",
             "The peer lives in the same process; a run ended by the harness watchdog is inconclusive.",
             "DESIGN.md §2 C20"),
 })
